@@ -20,17 +20,20 @@ import (
 
 // HostSpec describes one registry host and the token server it names.
 type HostSpec struct {
-	Name      string `json:"name"`      // host[:port] of the registry
-	Cred      string `json:"cred"`      // none | basic | refresh | static | configerr
-	Service   string `json:"service"`   // service name used in challenges
-	Realm     string `json:"realm"`     // host of the token server named in challenges
-	Challenge string `json:"challenge"` // exact | superset | unrelated | none | basic | both | raw
-	RawHeader string `json:"raw_header,omitempty"`
-	TTL       int    `json:"ttl"`               // expires_in: -1 absent, 0, 1, 2, 3, ...
-	TTLSeq    []int  `json:"ttl_seq,omitempty"` // if set, the n-th token issued for this host gets TTLSeq[n % len] instead
-	Refuse    bool   `json:"refuse"`            // token server answers 401 to requests beyond the challenge scope
-	NoPost    bool   `json:"no_post"`           // token server lacks the OAuth2 POST endpoint (404)
-	Rotate    bool   `json:"rotate"`            // token server issues a new refresh token each time
+	Name    string `json:"name"`    // host[:port] of the registry
+	Cred    string `json:"cred"`    // none | basic | refresh | static | configerr
+	Service string `json:"service"` // service name used in challenges
+	Realm   string `json:"realm"`   // host of the token server named in challenges
+	// ScopeSpelling: how exact / superset challenges spell their scope: 0 in canonical form, 1 with
+	// repositories and actions in descending order, 2 with the first group repeated at the end
+	ScopeSpelling int    `json:"scope_spelling,omitempty"`
+	Challenge     string `json:"challenge"` // exact | superset | unrelated | none | basic | both | raw
+	RawHeader     string `json:"raw_header,omitempty"`
+	TTL           int    `json:"ttl"`               // expires_in: -1 absent, 0, 1, 2, 3, ...
+	TTLSeq        []int  `json:"ttl_seq,omitempty"` // if set, the n-th token issued for this host gets TTLSeq[n % len] instead
+	Refuse        bool   `json:"refuse"`            // token server answers 401 to requests beyond the challenge scope
+	NoPost        bool   `json:"no_post"`           // token server lacks the OAuth2 POST endpoint (404)
+	Rotate        bool   `json:"rotate"`            // token server issues a new refresh token each time
 	// TokenFault: "" | status:<n> | redirect:<n>:<host> | badjson | emptyjson | notoken | accessfield
 	TokenFault string `json:"token_fault,omitempty"`
 	// Accept: the registry accepts any syntactically valid token of its own (valid) or rejects everything (never)
@@ -235,6 +238,29 @@ func scopeTextOf(req map[Triple]bool) string {
 	return strings.Join(parts, " ")
 }
 
+// respell writes a scope text another way without changing what it says: 1 = repositories and actions in
+// descending order, 2 = the first group once more at the end.
+func respell(text string, how int) string {
+	parts := strings.Fields(text)
+	if len(parts) == 0 {
+		return text
+	}
+	switch how {
+	case 1:
+		for i, p := range parts {
+			if j := strings.LastIndex(p, ":"); j >= 0 {
+				acts := strings.Split(p[j+1:], ",")
+				sort.Sort(sort.Reverse(sort.StringSlice(acts)))
+				parts[i] = p[:j+1] + strings.Join(acts, ",")
+			}
+		}
+		sort.Sort(sort.Reverse(sort.StringSlice(parts)))
+	case 2:
+		parts = append(parts, parts[0])
+	}
+	return strings.Join(parts, " ")
+}
+
 func resp(req *http.Request, status int, hdr http.Header, body string) *http.Response {
 	if hdr == nil {
 		hdr = http.Header{}
@@ -320,14 +346,14 @@ func (w *World) challengeHeaders(h *HostSpec, required map[Triple]bool) (hdrs []
 	}
 	switch h.Challenge {
 	case "exact":
-		scopeText = scopeTextOf(required)
+		scopeText = respell(scopeTextOf(required), h.ScopeSpelling)
 		return []string{bearer(scopeText)}, scopeText
 	case "superset":
 		sup := map[Triple]bool{{"repository", "extra/repo", "pull"}: true}
 		for x := range required {
 			sup[x] = true
 		}
-		scopeText = scopeTextOf(sup)
+		scopeText = respell(scopeTextOf(sup), h.ScopeSpelling)
 		return []string{bearer(scopeText)}, scopeText
 	case "unrelated":
 		scopeText = "repository:unrelated:pull"
